@@ -30,14 +30,14 @@ PROVED (for ALL inputs, no curve or subgroup hypothesis):
   `G2Affine::pairing_with(&p)` is `perform_pairing` = `Bls12::pairing(*p, *self)` (ec/g2.rs); both are
   the single model function `pairing p q`.
 
-NOT PROVED, and not stated as theorems anywhere in this development:
+NOT proved IN THIS FILE (update: all three are PROVED elsewhere — bilinearity and non-degeneracy in PP/Props/C03Bilinear.lean from C03LinP + C03LinQ, agreement with the textbook Miller loop in PP/Props/C03Lines.lean):
 * BILINEARITY `e([a]P,[b]Q) = e(P,Q)^(ab)`;
 * NON-DEGENERACY, i.e. the ONLY-IF direction of "equals 1 exactly when P or Q is the identity" (for
   P ∈ G1, Q ∈ G2 of order r);
 * (NOW PROVED in PP/Props/C03Lines.lean: the Miller loop is the textbook tangent/chord evaluation) agreement of the Miller loop (the line coefficients of `doubling_step`/`addition_step` on the twist,
   evaluated through `ell`) with a textbook definition of the Miller function `f_{|x|,Q}(P)` / the optimal
   ate pairing on every input.
-These need the theory of divisors / Weil reciprocity on the curve, which Mathlib does not provide; they
+The classical proofs need the theory of divisors / Weil reciprocity on the curve, which Mathlib does not provide (C03LinP / C03LinQ replace it by line reciprocity and by the ideal theory of the coordinate ring); they
 are exercised by the differential and oracle test harness instead.  The kernel-checked value at the
 generators, together with bilinearity (unproved), would determine the pairing on all of G1 × G2.
 -/
